@@ -218,8 +218,10 @@ def replay_jet(run, ob, model, resolutions=None, rtol=1e-6):
     mkey = hash(tuple(sorted((k, str(v)) for k, v in model.items())))
     for N, h in resolutions:
         ck = (id(run), mkey, N, h)
-        rel = _REL_CACHE.get(ck)
-        if rel is None:
+        rel = None if ob.meta.get('fresh_rel') else _REL_CACHE.get(ck)
+        if ob.meta.get('fresh_rel'):
+            rel = run.float_rel(model, N=N, h=h)          # history-sensitive obligation: its own instance
+        elif rel is None:
             if len(_REL_CACHE) > 8:
                 _REL_CACHE.clear()
             rel = run.float_rel(model, N=N, h=h)
@@ -411,12 +413,14 @@ class Report:
         for key, what, path in self.violations:
             print(f"VIOLATION property={self.pid} replay={path}")
             print(f"  {key}: {what}")
-        if self.harness_errors:
-            for e in self.harness_errors:
-                print(f"HARNESS-ERROR: {e}")
-            return EXIT_HARNESS
+        for e in self.harness_errors:
+            print(f"HARNESS-ERROR: {e}")
         if self.violations:
+            # every VIOLATION line above was replayed on the real code; other counterexamples that did not reproduce (harness
+            # errors) do not take that back
             return EXIT_VIOLATION
+        if self.harness_errors:
+            return EXIT_HARNESS
         if self.inconclusive:
             for n, w in self.inconclusive:
                 print(f"INCONCLUSIVE: {n}: {w}")
